@@ -2,6 +2,7 @@ import Model.Bls
 import Model.Ecdsa
 import Proofs.Bytes
 import Proofs.E2Codec
+import Proofs.EcdsaCodec
 import Extracted.Consts
 
 /-! # C05 — serialization is canonical and validating
@@ -11,7 +12,8 @@ decoder either rejects it or accepts it and the encoder gives the same bytes bac
 are exactly the 32-byte scalars in `[1, order-1]`; the compressed point codecs of BLS12-381 (E1: signatures,
 E2: public keys) accept exactly the canonical encodings of reduced curve points and round-trip on all of them
 (primality of `p` by a Pratt certificate, `p ≡ 3 mod 4`, completeness of the F_p and F_p² square roots, no
-point with `y = 0` on either curve).  The X9.62-compressed ECDSA codec is tied by correspondence only. -/
+point with `y = 0` on either curve); the same for X9.62-compressed ECDSA public keys on P-256 and secp256k1
+(no 2-torsion: `x³ - 3x + b` has no root mod p by `gcd(x^p - x, f) = 1` computed in the kernel; `-7` is not a cube). -/
 
 namespace Props.C05
 open Model
@@ -194,6 +196,27 @@ theorem bls_pk_identity (b : Bytes) : Bls.decodePublicKey b = some none ↔ b = 
   · intro h
     exact ⟨fun x y hxy => (nomatch hxy), by decide +kernel, h.symm⟩
 
+/-! ### X9.62-compressed ECDSA public keys -/
+
+/-- **accepted compressed ECDSA public keys are exactly the canonical encodings `02/03 ‖ X` of the reduced points
+    of the curve** (P-256) -/
+theorem ecdsa_p256_compressed_iff (b : Bytes) (Q : Nat × Nat) :
+    Ecdsa.decodePublicKeyCompressed Ecdsa.p256 b = some Q ↔
+      (Proofs.EcdsaCodec.Valid Ecdsa.p256 Q ∧ Ecdsa.encodePublicKeyCompressed Q = b) :=
+  Proofs.EcdsaCodec.pkc_accepts_iff _ Proofs.EcdsaCodec.good_p256 b Q
+
+/-- the same for secp256k1 -/
+theorem ecdsa_k256_compressed_iff (b : Bytes) (Q : Nat × Nat) :
+    Ecdsa.decodePublicKeyCompressed Ecdsa.k256 b = some Q ↔
+      (Proofs.EcdsaCodec.Valid Ecdsa.k256 Q ∧ Ecdsa.encodePublicKeyCompressed Q = b) :=
+  Proofs.EcdsaCodec.pkc_accepts_iff _ Proofs.EcdsaCodec.good_k256 b Q
+
+/-- neither curve has a point with `y = 0` (no 2-torsion) -/
+theorem ecdsa_no_two_torsion :
+    (∀ t : ZMod Ecdsa.p256P, t ^ 3 + (Ecdsa.p256.C.a : ZMod Ecdsa.p256P) * t + (Ecdsa.p256.C.b : ZMod Ecdsa.p256P) ≠ 0) ∧
+    (∀ t : ZMod Ecdsa.k256P, t ^ 3 + (Ecdsa.k256.C.a : ZMod Ecdsa.k256P) * t + (Ecdsa.k256.C.b : ZMod Ecdsa.k256P) ≠ 0) :=
+  ⟨Proofs.EcdsaRoots.p256_no_root, Proofs.EcdsaRoots.k256_no_root⟩
+
 /-! ### lengths: the decoders accept exactly one length each (tie to the constants of the code) -/
 
 theorem bls_pk_length (b : Bytes) (h : (Bls.decodePublicKey b).isSome) : b.length = 96 := by
@@ -244,3 +267,6 @@ end Props.C05
 #print axioms Props.C05.bls_pk_canonical
 #print axioms Props.C05.bls_pk_roundtrip
 #print axioms Props.C05.bls_pk_identity
+#print axioms Props.C05.ecdsa_p256_compressed_iff
+#print axioms Props.C05.ecdsa_k256_compressed_iff
+#print axioms Props.C05.ecdsa_no_two_torsion
